@@ -399,6 +399,10 @@ func (a *Authority) renewContext(ctx context.Context, oldCert *x509.Certificate,
 	backdate := a.config.AuthorityConfig.Backdate.Duration
 	duration := oldCert.NotAfter.Sub(oldCert.NotBefore)
 	lifetime := duration - backdate
+	if lifetime <= 0 {
+		// The new certificate would already be expired when it is issued.
+		return nil, prov, errs.BadRequest("cannot renew a certificate whose validity period is not longer than the backdate")
+	}
 
 	// Create new certificate from previous values.
 	// Issuer, NotBefore, NotAfter and SubjectKeyId will be set by the CAS.
